@@ -1,4 +1,4 @@
-/- driver ops for the C19 cost model: costorder, costboc, costbocparse, costdict, costtl, costtlside -/
+/- driver ops for the C19 cost model: costorder, costboc, costbocparse, costdict, costtl, costtlside, costbuild -/
 import TonVerif.Drv.Common
 import TonVerif.Model.Cost
 
@@ -35,6 +35,15 @@ def handleBoc (d : String) (fl : String) : String :=
   | some g, [a, b, c] =>
     let o := toBoc g (g.length - 1) (flag a) (flag b) (flag c)
     s!"ok {o.steps} {o.bytes} {o.cells} {o.refs} {hashWork g}"
+  | _, _ => "bad-op"
+
+/-- constructing every cell once: `lvs` = hashes computed per cell (`.`-separated, as many as nodes) -/
+def handleBuild (d : String) (lvs : String) : String :=
+  match parseDag d, parseNatList lvs with
+  | some g, some l =>
+    let lv := fun v => l.getD v 1
+    let ok4 := if l.all (· ≤ 4) then "1" else "0"
+    s!"ok {buildSteps lv g} {buildBytes lv g} {cellBytes g} {g.length} {edges g} {hashWork g} {ok4}"
   | _, _ => "bad-op"
 
 /-- calls of the pre-563b428 recursive order (exponential on shared chains: small inputs only) -/
@@ -147,6 +156,7 @@ def handle? (op : String) (args : List String) : Option String :=
   | "costorder", [d] => some (handleOrder d)
   | "costoldorder", [d] => some (handleOldOrder d)
   | "costboc", [d, fl] => some (handleBoc d fl)
+  | "costbuild", [d, l] => some (handleBuild d l)
   | "costbocparse", [h] => some (handleBocParse h)
   | "costdict", [d, k] => some (handleDict d k)
   | "costtl", [t, i] => some (handleTl t i)
